@@ -25,7 +25,7 @@ ASSUMPTIONS = [
     "expected codons/sequences come from the reading-frame model and the designed genome",
     "chunk_relative_frames are compared only for one uninterrupted reading frame (the library documents that frameshift information is lost on chunks)",
 ]
-WORLD = {"quick": dict(N=7, k=2, Ng=6), "thorough": dict(N=9, k=3, Ng=8)}
+WORLD = {"quick": dict(N=6, k=2, Ng=6), "thorough": dict(N=9, k=3, Ng=8)}
 NSH = 64
 SCALE_KS = {"quick": (5, 12), "thorough": (4, 5, 6, 8, 12, 20, 33)}
 GENOME = "ATGACTTGATAGGCATGCCTAAGT"
